@@ -108,6 +108,18 @@ func (e *env) mkPoly(rng *gen.Rng, n int, shape string) []*big.Int {
 		}
 	case "monomial":
 		p[n-1] = big.NewInt(1)
+	case "small-coef": // witness-like values: every coefficient below 2^12, all digits in the lowest window of the MSM
+		for i := range p {
+			p[i] = big.NewInt(int64(1 + rng.Intn(4093)))
+		}
+	case "runs": // long runs of one full-size value
+		var v *big.Int
+		for i := range p {
+			if i%(n/7+1) == 0 {
+				v = nz()
+			}
+			p[i] = v
+		}
 	default:
 		panic("shape " + shape)
 	}
@@ -313,6 +325,26 @@ func (e *env) secHonest() {
 			}
 		}
 		noteStat("verifications_through_shared_key_objects", N, float64(s.uses))
+	}
+	// strings long enough for the window sizes at which the multi-exponentiation behind Commit and Open balances its
+	// work per window (more than 4096 points): odd and even lengths, coefficients that load a few windows only
+	big := []int{5001}
+	if c.Thorough() {
+		big = append(big, 8193)
+	}
+	for _, size := range big {
+		s := e.newSRS(rng, size, "random", false)
+		if s == nil {
+			continue
+		}
+		for _, n := range []int{size, size - 1, 4097} {
+			for _, sh := range []string{"small-coef", "runs", "dense"} {
+				if sh == "dense" && n != size {
+					continue
+				}
+				s.honest(rng, e.mkPoly(rng, n, sh), sh, nil, false)
+			}
+		}
 	}
 }
 
